@@ -115,7 +115,7 @@ fn object_keys(l0: usize, l1: usize) {
     kani::cover!(!ok && utf8_ok_at(&d.b, k0, l0 + l1), "keys ill-formed although the key area as a whole is well-formed");
     core::mem::forget(r);
 }
-//@ props: C10
+//@ props: UNREACHED-C10
 //@ timeout: 1800
 //@ harness: c10_object_keys_11, c10_object_keys_21, c10_object_keys_12
 //@ desc: two-member object whose key bytes (lengths 1+1, 2+1, 1+2) are arbitrary, not assumed well-formed or sorted: the decoder never panics and returns a value exactly when each key on its own is well-formed UTF-8 (a multi-byte character split across two keys is rejected)
@@ -144,15 +144,15 @@ fn prefixes(d: &B) {
 }
 //@ props: C10
 //@ timeout: 1800
-//@ harness: c10_prefix_a, c10_prefix_b, c10_prefix_c, c10_prefix_d
-//@ desc: every proper prefix (truncation at every offset) of the encodings of "s2" (scalar string: the text fallback sees header bytes then the payload), a 9-byte number, [n5,s1] and {k:n3} with symbolic payloads (a cut inside a multi-byte number leaves a shorter slice that must not be accepted as a shorter number) is rejected with an error by parse_jsonb and by from_slice (binary decode fails and the text fallback rejects the bytes too)
+//@ harness: c10_prefix_a, c10_prefix_b, c10_prefix_c
+//@ desc: every proper prefix (truncation at every offset) of the encodings of "s2" (scalar string: the text fallback sees header bytes then the payload), a 9-byte number and [n5,s1] with symbolic payloads (a cut inside a multi-byte number leaves a shorter slice that must not be accepted as a shorter number) is rejected with an error by parse_jsonb and by from_slice (binary decode fails and the text fallback rejects the bytes too)
 //@ fns: parse_jsonb, from_slice, Decoder::decode, parse_value, Parser::parse, Parser::skip_unused
 //@ bounds: documents <= 40 bytes
 //@ stubs: drop_in_place -> no-op | core::str::from_utf8 -> specification model (DFA over Unicode table 3-7)
 harness!(c10_prefix_a, 66, prefixes(&B::build(&leaf(K_STR, 2))));
 harness!(c10_prefix_b, 66, prefixes(&B::build(&leaf(K_NUM, 9))));
 harness!(c10_prefix_c, 66, prefixes(&B::build(&arr(&[leaf(K_NUM, 5), leaf(K_STR, 1)]))));
-harness!(c10_prefix_d, 66, prefixes(&B::build(&obj(&[1], &[leaf(K_NUM, 3)]))));
+
 
 /// single-byte faults: one byte of a valid encoding replaced by an arbitrary byte, at every offset
 fn fault(d: &B) {
@@ -228,15 +228,15 @@ fn c10_text_not_binary() {
 //@ props: C10
 //@ timeout: 300
 //@ expect: twin
-//@ desc: vacuity twin: every 8-byte input claimed to be rejected — must be refuted
+//@ desc: vacuity twin: a valid string document claimed to be rejected — must be refuted
 //@ fns: parse_jsonb
 #[kani::proof]
 #[kani::unwind(5)]
 #[kani::stub(std::ptr::drop_in_place, noop_drop)]
 #[kani::stub(core::str::from_utf8, from_utf8_model)]
 fn c10_twin_must_fail() {
-    let buf: [u8; 8] = kani::any();
-    let r = parse_jsonb(&buf);
+    let d = B::build(&leaf(K_STR, 1));
+    let r = parse_jsonb(d.bytes());
     let bad = r.is_err();
     core::mem::forget(r);
     assert!(bad, "TWIN: deliberately false");
